@@ -9,6 +9,7 @@ Event grammar (driver body/arith.rs), all values hex bit patterns:
   mul_int a i => checked saturating wrapping overflowing plain assign int_times_fixed
   div_int a i => checked wrapping overflowing plain assign
   <op>_r a b => three by-reference spellings (+ assign-by-ref), or one P token
+  signum_t | npow2_t | abs_t a => the same tokens as signum / npow2 / abs through the FixedSigned / FixedUnsigned trait impls
   fold k x1..xk => iter::Sum over values, over references; iter::Product over values, over references
 """
 from common import Stats, lay, trunc_div, opclass, panic_text, TRIVIAL_CLASSES
@@ -25,6 +26,9 @@ FORMS = {
     "div": "cswopp",
     "mul_int": "cswoppp",
     "div_int": "cwopp",
+    "signum_t": "p",
+    "npow2_t": "cpb",
+    "abs_t": "cswop",
     "add_r": "pppp",
     "sub_r": "pppp",
     "mul_r": "pppp",
@@ -38,7 +42,7 @@ C01_OPS = ("mul", "div", "mul_r", "div_r")
 
 def exact(L, op, A, B):
     """exact raw result R (python int) or None for a zero divisor"""
-    base = op[:-2] if op.endswith("_r") else op
+    base = op[:-2] if (op.endswith("_r") or op.endswith("_t")) else op
     if base == "signum":
         return (1 if A > 0 else (-1 if A < 0 else 0)) << L.f
     if base == "npow2":
